@@ -532,9 +532,15 @@ func runRepeatedSpecials() {
 		ch := string(rune(c))
 		texts = append(texts, ch+ch, ch+ch+ch, ch+ch+ch+ch, "a"+ch+ch+"b", ch+"x"+ch, ch+ch+"1"+ch+ch)
 	}
-	texts = append(texts, `\\fileserver\share\report.txt`, `a\\b`, `\n`, `\\n`, `\000026`, `\\000026`, `\000003abc`, `]Q1`, `]Q2\000026x`, `]Q3`, `%25`, `%%`, `%5C%5C`, `%41`, `\u0041`, `\x41`, `&amp;`, `&#65;`, `&&`, `\r\n`, `""`, `\"`, `\'`, `$$`, `{{x}}`, `${x}`, `<<>>`, `\\\\`, `\\\`, `a\`, `\`, `~~`, `~d029`, `^^`, `^FNC1`, "\x1d\x1d", "\x1d", "\x00\x00", "\t\t", "\r\n\r\n")
+	texts = append(texts, `\\fileserver\share\report.txt`, `a\\b`, `\n`, `\\n`, `\000026`, `\\000026`, `\000003abc`, `]Q1`, `]Q2\000026x`, `]Q3`, `%25`, `%%`, `%5C%5C`, `%41`, `\u0041`, `\x41`, `&amp;`, `&#65;`, `&&`, `\r\n`, `""`, `\"`, `\'`, `$$`, `{{x}}`, `${x}`, `<<>>`, `\\\\`, `\\\`, `a\`, `\`, `~~`, `~d029`, `^^`, `^FNC1`, "\x1d\x1d", "\x1d", "\x00\x00", "\t\t", "\r\n\r\n",
+		// sequences by which OTHER encodings announce themselves inside 7-bit text (ISO-2022 designators
+		// and shifts, HZ, UTF-7) and byte-order marks: in an ASCII text they are just characters
+		"log: \x1b$B1234 done", "\x1b$B", "\x1b$@AB", "a\x1b(Bb", "\x1b(J~", "\x1b$A12", "\x1b$)C\x0eAB\x0f", "\x1b$(D", "\x1bN\x1bO", "\x0e\x0f", "x\x1b$B\x1b(B",
+		"~{<:Ky~}", "~~", "+AGE-", "+ZeVnLIqe-", "a+-b", "\ufeffBOM first", "mid\ufeffBOM", "\ufffe", "\ufffd",
+		// Latin-1 texts whose single-byte form is well-formed UTF-8 (mojibake look-alikes)
+		"\u00c3\u00a9", "n\u00c2\u00b01", "\u00e2\u0082\u00ac5", "caf\u00c3\u00a9", "\u00c3\u00a9\u00c3\u00a9\u00c3\u00a9", "\u00c3\u00a9\u00e9", "\u00d0\u009f\u00d1\u0080")
 	css := []string{"", "UTF-8", "ISO-8859-1", "Shift_JIS"}
-	chk.Range(fmt.Sprintf("(b'') repeated and escape-like characters: every printable ASCII character doubled, tripled, quadrupled and in three mixed texts, and %d escape-like sequences (backslashes, \\000026, symbology identifiers, %%-escapes, entities, control characters) x charset hint {none, UTF-8, ISO-8859-1, Shift_JIS}: write -> read == text [%d texts]", len(texts)-95*6, len(texts)), len(texts),
+	chk.Range(fmt.Sprintf("(b'') repeated and escape-like characters: every printable ASCII character doubled, tripled, quadrupled and in three mixed texts, and %d escape-like sequences (backslashes, \\000026, symbology identifiers, %%-escapes, entities, control characters, ISO-2022 / HZ / UTF-7 designators, byte-order marks) x charset hint {none, UTF-8, ISO-8859-1, Shift_JIS}: write -> read == text [%d texts]", len(texts)-95*6, len(texts)), len(texts),
 		func(i int) string { return fmt.Sprintf("%q", texts[i]) },
 		func(l *mc.Local, i int) {
 			for _, cs := range css {
